@@ -320,7 +320,17 @@ def run_case(doc: dict) -> dict:
                 if lost and out["status"] == "completed":
                     viol.append((f"{tag}:selected_and_produced_output_missing", {"keys": lost}))
                 # gate-free scope: values equal the unscoped run
-                if not has_gates and out["status"] == "completed" and not faults:
+                # (not when a waiter inside the scope awaits a signal whose producer is outside it: it can never run)
+                ordering_cut = False
+                if act is not None:
+                    made = {}
+                    for nd in g["nodes"]:
+                        for o in _node_io(nd)[1]:
+                            made[o] = nd["name"]
+                    for nd in g["nodes"]:
+                        if nd["name"] in act and any(made.get(wn) is not None and made[wn] not in act for wn in nd.get("wait_for", [])):
+                            ordering_cut = True
+                if not has_gates and out["status"] == "completed" and not faults and not ordering_cut:
                     diff = {k: (v, ref["values"][k]) for k, v in vals.items() if k in ref["values"] and canon(v) != canon(ref["values"][k])}
                     if diff:
                         viol.append((f"{tag}:scoped_value_differs_from_unscoped_run", {"diff(scoped,unscoped)": diff, "entry": doc.get("entry")}))
